@@ -31,7 +31,7 @@ META = dict(
                  "idle handlers take a positive amount of time (a zero-time idle handler would spin the loop without "
                  "the virtual clock advancing, which no real handler can do)"],
     probes_expected=["future_head_of_line", "out_of_order_drop", "pool_saturated", "job_in_past", "job_in_future",
-                     "idle_handler_ran", "late_timer"],
+                     "idle_handler_ran", "late_timer", "latency_checked"],
     states_measure="distinct (events in flight, jobs in flight, idle in flight) triples at any handler entry",
 )
 
@@ -66,7 +66,8 @@ def run(tape, prop, tier):
 
     tr = []
     viol = []
-    S = dict(ev=0, job=0, idle=0, eid=0)
+    S = dict(ev=0, job=0, idle=0, eid=0, max_lat=0.0)
+    due_at = {}
     pushed = collections.defaultdict(list)
     entries = collections.Counter()
     reported = []
@@ -88,9 +89,14 @@ def run(tape, prop, tier):
 
         srcs = [event.FifoQueueEventSource() for _ in range(nsrc)]
 
+        due_of_src = {}
+
         def mkh(hid):
             async def h(ev):
                 now = bdt.utc_now()
+                lat = loop.wall() - due_at.get(ev.eid, loop.wall())
+                if lat > S["max_lat"]:
+                    S["max_lat"] = lat
                 if now < ev.when:
                     viol.append(("event-early", f"handler entered {(ev.when - now).total_seconds():.6f} s before the "
                                                 f"event's time {ev.when}"))
@@ -153,6 +159,11 @@ def run(tape, prop, tier):
                 pushed[i].append(ev)
                 srcs[i].push(ev)
                 tr.append(("push", ev.eid, i, delta, loop.time()))
+                # when is this event due at the earliest? not before it was pushed, not before its time, and not before the
+                # event ahead of it in its own source (FIFO, head-of-line)
+                due = max(loop.wall(), (ev.when - bdt.utc_now()).total_seconds() + loop.wall(), due_of_src.get(i, 0.0))
+                due_of_src[i] = due
+                due_at[ev.eid] = due
                 if job is not None:
                     sched(job)
         fs = [asyncio.ensure_future(feeder(i, ops)) for i, ops in enumerate(feeders)]
@@ -241,6 +252,15 @@ def run(tape, prop, tier):
                 if got != exp[i] and not res.first(PROP):
                     V("per-source-order", f"source {i} handler {h}: delivered {got}, FIFO/drop model says {exp[i]}; "
                                           f"pushed (eid, offset): {[(x[1], x[3]) for x in tr if x[0] == 'push' and x[2] == i]}")
+        # with a pool that cannot fill up nothing competes for a slot: once due, an event must be dispatched within a
+        # polling interval (idle_sleep or the 10 ms wait), plus timer lateness
+        total_tasks = sum(len(v) for v in pushed.values()) + len(jobs) + nidle
+        if maxc > total_tasks and not res.first(PROP):
+            bound = idle_sleep + 0.05 + (0.03 * 3 if late else 0.0)
+            if S["max_lat"] > bound:
+                V("dispatch-latency", f"an event was dispatched {S['max_lat']:.3f} s after it became due although the pool "
+                                      f"({maxc} slots, {total_tasks} tasks in the whole run) never filled up; polling bound {bound:.3f} s")
+            res.probes["latency_checked"] += 1
         if len(reported) != drops and not res.first(PROP):
             V("drop-report", f"{len(reported)} out-of-order reports, model says {drops} events were dropped")
         for j, v in jobs.items():
